@@ -239,6 +239,73 @@ pub fn run_c18(cx: &mut Cx) {
             }
         });
     }
+    // keys with MANY bases (more than 9, more than 64: list positions of two and more digits)
+    // through every serde_json front end: string, pretty string, Value, reader
+    {
+        let wide = cx.node("wide-keys");
+        let k = pool_key(cx.ch.forced("pool_key_wide", POOL_SIZE, cx.run_index));
+        let n = [10usize, 11, 12, 20, 65, WIDE][cx.ch.forced("wide_n", 6, cx.run_index) as usize];
+        cx.count("probe.json_roundtrip_of_keys_with_more_than_nine_bases");
+        cx.step(wide, "json-roundtrip-many-bases", StepOpts::default(), move || {
+            let cpk = CL03CommitmentPublicKey { N: k.cpk_wide.N.clone(), h: k.cpk_wide.h.clone(), g_bases: k.cpk_wide.g_bases[..n].to_vec() };
+            let bases = zkryptium::cl03::bases::Bases(k.bases_wide.0[..n].to_vec());
+            let mut bad: Vec<String> = Vec::new();
+            let text = serde_json::to_string(&cpk).unwrap();
+            let pretty = serde_json::to_string_pretty(&cpk).unwrap();
+            let value = serde_json::to_value(&cpk).unwrap();
+            match serde_json::from_str::<CL03CommitmentPublicKey>(&text) { Ok(x) if x == cpk => {} Ok(_) => bad.push("commitment key, string: decodes to another key".into()), Err(e) => bad.push(format!("commitment key, string: {e}")) }
+            match serde_json::from_str::<CL03CommitmentPublicKey>(&pretty) { Ok(x) if x == cpk => {} Ok(_) => bad.push("commitment key, pretty string: decodes to another key".into()), Err(e) => bad.push(format!("commitment key, pretty string: {e}")) }
+            match serde_json::from_value::<CL03CommitmentPublicKey>(value) { Ok(x) if x == cpk => {} Ok(_) => bad.push("commitment key, Value: decodes to another key".into()), Err(e) => bad.push(format!("commitment key, Value: {e}")) }
+            match serde_json::from_reader::<_, CL03CommitmentPublicKey>(text.as_bytes()) { Ok(x) if x == cpk => {} Ok(_) => bad.push("commitment key, reader: decodes to another key".into()), Err(e) => bad.push(format!("commitment key, reader: {e}")) }
+            let bt = serde_json::to_string(&bases).unwrap();
+            match serde_json::from_str::<zkryptium::cl03::bases::Bases>(&bt) { Ok(x) if x.0 == bases.0 => {} Ok(_) => bad.push("bases, string: decode to other bases".into()), Err(e) => bad.push(format!("bases, string: {e}")) }
+            match serde_json::from_value::<zkryptium::cl03::bases::Bases>(serde_json::to_value(&bases).unwrap()) { Ok(x) if x.0 == bases.0 => {} Ok(_) => bad.push("bases, Value: decode to other bases".into()), Err(e) => bad.push(format!("bases, Value: {e}")) }
+            bad
+        }, move |cx, st| {
+            cx.eval(&[b"many-bases", &(n as u64).to_le_bytes()], true);
+            match st.out {
+                Ok(bad) if bad.is_empty() => cx.count("verdict.roundtrip.ok"),
+                other => cx.violation("C18", "encoding/json-roundtrip-of-a-key-with-many-bases".into(), format!("{n} bases: {other:?}")),
+            }
+        });
+    }
+    // commitment keys over a SUPPLIED modulus small enough for the rare branches of the generator to
+    // be the common ones: a product of two small safe primes, where h^f = 1 for one exponent in a
+    // few (ord(h) is 3, 5, 11, 15, ...).  Every element must still differ from 1, be coprime to N,
+    // be a square and lie in the subgroup generated by h -- all decided by brute force
+    {
+        let small = cx.node("small-moduli");
+        let nmod = [77u32, 161, 253, 1081, 2021, 3901][cx.ch.forced("small_modulus", 6, cx.run_index) as usize];
+        cx.count("probe.commitment_key_over_a_small_supplied_modulus");
+        cx.step(small, "commitment-keys-over-small-modulus", StepOpts::default(), move || {
+            let mut bad: Vec<String> = Vec::new();
+            for round in 0..40 {
+                let cpk = CL03CommitmentPublicKey::generate::<CS>(Some(Integer::from(nmod)), Some(6));
+                let n = nmod as u64;
+                let h = cpk.h.to_u64().unwrap_or(0);
+                let squares: std::collections::BTreeSet<u64> = (1..n).map(|y| y * y % n).collect();
+                let mut sub = std::collections::BTreeSet::new();
+                let mut x = 1u64; loop { x = x * h % n; if !sub.insert(x) { break; } }
+                let gcd = |a: u64, b: u64| { let (mut a, mut b) = (a, b); while b != 0 { let t = a % b; a = b; b = t; } a };
+                if cpk.N != nmod { bad.push(format!("round {round}: N = {}", cpk.N)); }
+                for (name, v) in std::iter::once(("h".to_string(), h)).chain(cpk.g_bases.iter().enumerate().map(|(i, g)| (format!("g_{i}"), g.to_u64().unwrap_or(0)))) {
+                    if v <= 1 || v >= n { bad.push(format!("round {round}: {name} = {v} (h = {h})")); continue; }
+                    if gcd(v, n) != 1 { bad.push(format!("round {round}: gcd({name} = {v}, N) != 1")); }
+                    if !squares.contains(&v) { bad.push(format!("round {round}: {name} = {v} is not a square")); }
+                    if name != "h" && !sub.contains(&v) { bad.push(format!("round {round}: {name} = {v} is not a power of h = {h}")); }
+                }
+                if cpk.g_bases.len() != 6 { bad.push(format!("round {round}: {} bases for 6 attributes", cpk.g_bases.len())); }
+            }
+            bad
+        }, move |cx, st| {
+            cx.eval(&[b"small-modulus", &nmod.to_le_bytes()], true);
+            match st.out {
+                Ok(bad) if bad.is_empty() => cx.count("verdict.wellformed.ok"),
+                Ok(bad) => cx.violation("C18", "commitment-key/element-over-a-small-supplied-modulus".into(), format!("N = {nmod}: {:?}", bad.into_iter().take(4).collect::<Vec<_>>())),
+                Err(c) => cx.violation("C18", "commitment-key/generation-over-a-small-supplied-modulus-crashed".into(), format!("N = {nmod}: {c:?}")),
+            }
+        });
+    }
     // random exponents: exact lengths and ranges, on a node thread with entropy faults
     let drawer: NodeId = cx.node("drawer");
     let bits = [1u32, 2, 8, 63, 64, 65, 256, 258, 1024, 1536][cx.ch.choose("bits", 10) as usize];
